@@ -592,6 +592,13 @@ for _p in ("C01", "C04", "C07", "C11"):
     CLAIMED[_p]["text"] += _R9_WBRIDGE3B
 
 
+# ---- round 9 (worker handleg2): the remaining sample-granular containers on the generic handle machine (appended) ----
+for _p in ("C04", "C05", "C06", "C07", "C08"):
+    CLAIMED[_p]["text"] += (" Round 9 (handleg2): Sf.HandleG instances SVX / MPC2K / WVE / PVF / MAT4 / MAT5 / NIST / VOC (lean/SfModel/HandleGInst3.lean) and SFM_RDWR on an existing AIFF file "
+                            "(aiff_rewrite_header patches in place, lean/SfModel/HandleGAiffRw.lean): eighteen containers in vlib/handleg.py, store bytes compared; instances_lawful_all, closed_bytes_generic, "
+                            "write_two_calls_generic (lean/SfProps/C04HandleG.lean).")
+
+
 def main():
     checks = []
     for p in PROPS:
